@@ -170,4 +170,12 @@ PROPS = {
                "cases = (count, mixture, data shape, API level); counts 0..300 enumerated for two mixtures x five data shapes + platform API, further mixtures generated; non-trivial = count within +/-3 of 63/64 or of the kernel limit 253, or > 64; distinct = distinct (build, params, canonical JSON)",
                exhaustive="attachment counts 0..300 x 5 data shapes x 2 mixtures (ipc API) and x 1 shape cycle (platform API), per build/configuration"),
     ),
+    "C16": dict(
+        jobs=lambda tier: [dict(build=b, params={"cases": "40000" if tier == "quick" else "1000000"}, shards=8 if tier == "quick" else 16) for b in ("os", "memfd")],
+        meta=M("exploration",
+               "structure-aware fuzzing with proptest: random bytes and mutated valid encodings (bit flips, truncation, extension, special-value overwrites of length prefixes and attachment indices) x attachment lists x 13 expected types x 5 receive paths, with identity probes and release checks",
+               "Arbitrary (bytes, attachments) pairs are put on the wire through the public API (a harness type that serialises as raw bytes and registers attachments) and received as one of 13 expected types via recv, try_recv, receiver set + OpaqueIpcMessage::to, or dropped undecoded via a receiver set or a router callback. The result must be Ok or Err - never a panic/abort; every endpoint/region in an Ok value must be one of the attached ones and handed out at most once (probed); after dropping everything each attached-only sender's channel reports Disconnected, each attached receiver's channel refuses sends, and the descriptor table is back to its baseline.",
+               "In-process generated search (no coverage guidance in the registered tiers); each case runs on a fresh thread; an abort of the worker process is reported as a violation with the case in flight as replay.",
+               "cases = (expected type, byte generator, 0..8 attachments, receive path); non-trivial = the decoded value handed out at least one endpoint, or the bytes are a structured mutation of a valid encoding, or the message was dropped undecoded with >=1 attachment; distinct = distinct (build, canonical JSON)"),
+    ),
 }
